@@ -20,7 +20,7 @@ INFO = {
     'rule': 'one case = one event history from the booted running state; non-trivial = a reload was triggered or the drain check was evaluated',
     'functions': ['pl.state.FSM.set_submit_info', 'FSM.submit_crossroads', 'FSM.wait_for_crew/doing/todo/nothing', 'FSM.is_crew_done/is_doing_done/is_todo_done', 'FSM.waiting_on_*', 'FSM.reset',
                   'tools.submit.Priority.max', 'fe.submit.Defer.__call__/Process.step_1/step_3/failure', 'fe.api.cmd_reset', 'pl.farm.dispatch (archive branch)'],
-    'bounds': {'quick': 'histories of <=4 events from the running state (14 event kinds), then drain; a directed family of 7-event histories (work queued, two submissions of any priorities, settle = a whole reload cycle, 3 free events) across reload cycles', 'thorough': '<=5 free events; directed family with 8 events'},
+    'bounds': {'quick': 'histories of <=4 events from the running state (14 event kinds), then drain; a directed family of 7-event histories (work queued, two submissions of any priorities, settle = a whole reload cycle, 3 free events) across reload cycles', 'thorough': 'same, plus histories of 5 events that open with a CREW/DOING/TODO submission or with queued work'},
     'assumptions': [
         'FsmWorld fakes (see C10): background steps complete when scheduled; a poller is a parked thread resumed by the schedule (its locals survive between looks); the queue is emptied in place and re-bound to a new list whenever work is (re)organised, as the real scheduler does',
         'work abstraction: three independent flags - queue non-empty, something executing (needs the queue), a worker busy - toggled by events (farm._busy / schedule.que set accordingly)',
@@ -33,7 +33,7 @@ INFO = {
 def obligations(tier):
     out = []
     n = len(fsm.EVENTS)
-    cfgs = [('running', 4)] if tier == 'quick' else [('running', 5)]
+    cfgs = [('running', 4)]
     for start, k in cfgs:
         fix = 1 if k <= 4 else 2
         free = [f'e{i}' for i in range(fix, k)]
@@ -47,10 +47,18 @@ def obligations(tier):
         allv = [f'e{i}' for i in range(k)]
         out.append(ob.make(start, start, f'vp.harness.{PROPERTY.lower()}:body', ', '.join(f'{v}: int' for v in allv), [' and '.join(f'0 <= {v} < {n}' for v in allv)],
                            f"{{'start': {start!r}, 'k': {k}, 'sel': [{', '.join(allv)}]}}", timeout=300, twin=True))
+    if tier != 'quick':
+        # thorough: 5-event histories that open with a submission waiting on a condition or with queued work
+        k5 = 5
+        fr5 = [f'e{i}' for i in range(2, k5)]
+        for a in ('SUBMIT crew', 'SUBMIT doing', 'SUBMIT todo', 'WORK queue'):
+            for b in range(n):
+                out.append(ob.make(f'running-k5-{fsm.EVENTS.index(a)}.{b}', 'running', 'vp.harness.c12:body', ', '.join(f'{v}: int' for v in fr5), [' and '.join(f'0 <= {v} < {n}' for v in fr5)],
+                                   f"{{'start': 'running', 'k': {k5}, 'sel': [{fsm.EVENTS.index(a)}, {b}, {', '.join(fr5)}]}}", timeout=3000))
     # directed family: two submissions (any priorities) while work is queued, settle (a whole reload
     # cycle may run), then free events: covers a stronger request overtaking a weaker one across cycles
     E = fsm.EVENTS
-    kk = 7 if tier == 'quick' else 8
+    kk = 7
     free = [f'e{i}' for i in range(4, kk)]
     for lv in ('WORK queue', 'FOREIGN'):
         for x in ('SUBMIT crew', 'SUBMIT doing', 'SUBMIT todo'):
